@@ -34,3 +34,10 @@ static int ref_edge(const int *g, int sc, const int *sp, int sf, int dc, const i
 static int ref_indeg(const int *g, int c, const int *p, int f) { (void)g; (void)c; (void)p; (void)f; return 0; }
 static int ref_from_memory(const int *g, int c, const int *p, int f, int *co)
 { (void)g; (void)c; (void)f; co[0] = p[0]; co[1] = 0; return 1; }
+
+/* run the real generated internal_init of every class (sets the key min/range fields, repositories) */
+static __parsec_startup_STARTUP_task_t ref_init_task_STARTUP;
+static void ref_init_all(REF_TP_T *tp)
+{
+    ref_init_task_STARTUP.taskpool = (parsec_taskpool_t *)tp; startup_STARTUP_internal_init(NULL, &ref_init_task_STARTUP);
+}
